@@ -226,35 +226,39 @@ struct SLog {
     int ticks = 0;
 };
 static char s_ids[3];
+// script durations are multiples of 700 us - deliberately not a whole number of milliseconds - and times are compared in us
+constexpr long UNIT_US = 700;
+static long us_of(tp_t t) { return (long)std::chrono::duration_cast<std::chrono::microseconds>(t - T0()).count(); }
+static std::chrono::microseconds units(long n) { return std::chrono::microseconds(n * UNIT_US); }
 
 static cocls::async<void> sleeper(cocls::scheduler &sch, int who, int dur, int twice, SLog &log) {
     for (int r = 0; r <= twice; r++) {
-        long want = ms_of(vstd::chrono::system_clock::now()) + dur;
+        long want = us_of(vstd::chrono::system_clock::now()) + dur * UNIT_US;
         try {
-            co_await sch.sleep_for(std::chrono::milliseconds(dur), &s_ids[who]);
-            log.evs.push_back({who, 1, ms_of(vstd::chrono::system_clock::now()), want});
+            co_await sch.sleep_for(units(dur), &s_ids[who]);
+            log.evs.push_back({who, 1, us_of(vstd::chrono::system_clock::now()), want});
         } catch (const cocls::await_canceled_exception &) {
-            log.evs.push_back({who, 2, ms_of(vstd::chrono::system_clock::now()), want});
+            log.evs.push_back({who, 2, us_of(vstd::chrono::system_clock::now()), want});
             break;
         }
     }
     log.done++;
 }
 static cocls::async<void> canceller(cocls::scheduler &sch, int who, int when, SLog &log, int *result) {
-    co_await sch.sleep_for(std::chrono::milliseconds(when));
+    co_await sch.sleep_for(units(when));
     *result = sch.cancel(&s_ids[who]) ? 1 : 0;
     log.done++;
 }
 static cocls::async<void> ticker(cocls::scheduler &sch, int period, SLog &log) {
     vstd::stop_source src;
-    auto gen = sch.interval(std::chrono::milliseconds(period), src.get_token());
-    long start = ms_of(vstd::chrono::system_clock::now());
+    auto gen = sch.interval(units(period), src.get_token());
+    long start = us_of(vstd::chrono::system_clock::now());
     for (int i = 0; i < 2; i++) {
         bool more = co_await gen.next();
         if (!more) break;
         log.ticks++;
-        long nowms = ms_of(vstd::chrono::system_clock::now());
-        log.evs.push_back({10, 1, nowms, start + period * (i + 1)});
+        long nowus = us_of(vstd::chrono::system_clock::now());
+        log.evs.push_back({10, 1, nowus, start + period * UNIT_US * (i + 1)});
     }
     // stop while the generator is parked at co_yield: the next call must end the sequence without sleeping
     src.request_stop();
@@ -265,7 +269,7 @@ static cocls::async<void> ticker(cocls::scheduler &sch, int period, SLog &log) {
 static cocls::async<void> ticker_stop_while_sleeping(cocls::scheduler &sch, int period, SLog &log) {
     // request_stop() while interval() is suspended in its sleep: cancellation through the stop token
     vstd::stop_source src;
-    auto gen = sch.interval(std::chrono::milliseconds(period), src.get_token());
+    auto gen = sch.interval(units(period), src.get_token());
     cocls::future<std::size_t> f = gen();  // generator now sleeps
     src.request_stop();                    // must cancel that sleep, not hang
     bool hv = co_await f.has_value();
@@ -313,8 +317,8 @@ static void run_single(seqx::Runner &R, const SScript &sc) {
                 continue;
             }
             if (e.kind == 1) {
-                if (e.at < e.want) R.fail("sched/single/early", "sleeper %d woke at %ld ms, requested %ld ms", e.who, e.at, e.want);
-                if (e.at > e.want) R.fail("sched/single/late-while-idle", "sleeper %d woke at %ld ms, requested %ld ms although the thread was idle", e.who, e.at, e.want);
+                if (e.at < e.want) R.fail("sched/single/early", "sleeper %d woke at %ld us, requested %ld us", e.who, e.at, e.want);
+                if (e.at > e.want) R.fail("sched/single/late-while-idle", "sleeper %d woke at %ld us, requested %ld us although the thread was idle", e.who, e.at, e.want);
                 if (e.at < last) R.fail("sched/single/order", "wake-ups not in deadline order");
                 last = e.at;
                 if (e.who < 3) wakes[e.who]++;
